@@ -5,7 +5,7 @@ elements (no inherit condition), the rows of the selected class are assembled fr
 
 SELECT DogDAO.database_id, AnimalDAO.* FROM VetDAO JOIN AnimalDAO AS a1 ON ..., "DogDAO", "AnimalDAO" WHERE ...
 
-Run:  cd /tmp/hunt2/C07 && PYTHONPATH=/tmp/hunt2/C07/src:/tmp/hunt2/C07 /venv/bin/python HUNT/defect4.py
+Run:  cd /tmp/hunt2/C07 && PYTHONPATH=/repo/src:/tmp/hunt2/C07 /venv/bin/python HUNT/defect4.py
 Exits non-zero when the translated statement and the in-memory evaluation disagree (the defect is present).
 """
 import importlib, os, sys, tempfile, warnings
